@@ -171,9 +171,31 @@ def c09_a(ctx: Ctx):
         out.append(ctx.inc(R, fi2, fi2.node, "no id parameter"))
     else:
         flags = set(p2[1:])
+        def _helper_reads(x):
+            if not isinstance(x, ast.Call):
+                return None
+            for tq in common.targets_of(ctx, fi2, x):
+                g = ctx.prog.funcs.get(tq)
+                if g is not None and not g.module.is_dep and any(isinstance(c, ast.Call) and common.ext_name(ctx, g, c) in ("json.loads", "json.load") for c in body_nodes(g)):
+                    return g
+            return None
         out += _guard_check(ctx, R, fi2, p2[0], flags,
-                            lambda x: isinstance(x, ast.Call) and common.ext_name(ctx, fi2, x) in ("json.loads", "json.load"),
+                            lambda x: isinstance(x, ast.Call) and (common.ext_name(ctx, fi2, x) in ("json.loads", "json.load") or _helper_reads(x) is not None),
                             "the return of the state point")
+        # a helper that decodes the file must not substitute a default for content that cannot be decoded
+        for x in body_nodes(fi2):
+            g = _helper_reads(x)
+            if g is None:
+                continue
+            for r in [y for y in body_nodes(g) if isinstance(y, ast.Return) and y.value is not None]:
+                alts = [r.value] if not isinstance(r.value, ast.IfExp) else [r.value.body, r.value.orelse]
+                lit = [a for a in alts if isinstance(a, (ast.Dict, ast.List, ast.Constant, ast.Tuple)) or (isinstance(a, ast.Call) and isinstance(a.func, ast.Name) and a.func.id in ("dict", "list") and not a.args)]
+                kx = WSREAD + "|no-default-content"
+                if lit:
+                    out.append(ctx.viol(R, g, r, f"the state point file is decoded by {g.name}(), which answers {canon(lit[0])} for a file it cannot decode (e.g. a zero-length file): a truncated "
+                                        "state point file then validates for the job whose state point is that default, and check() accepts it", construct=kx))
+                else:
+                    out.append(ctx.ok(R, g, r, f"{g.name}() returns only what json decoded", construct=kx))
         for fl in flags:
             d = fi2.default_of(fl)
             v = ctx.fold(d, fi2) if d is not None else UNKNOWN
